@@ -169,12 +169,16 @@ pub fn from_string_inner(ast: &DeriveInput) -> syn::Result<TokenStream> {
     let phf_body = if phf_exact_match_arms.is_empty() {
         quote!()
     } else {
+        // The `phf` import is confined to a block of its own: a path written by the user (`parse_err_fn`)
+        // that starts with a module called `phf` must not resolve to it.
         quote! {
-            use #strum_module_path::_private_phf_reexport_for_macro_if_phf_feature as phf;
-            static PHF: phf::Map<&'static str, #name> = phf::phf_map! {
-                #(#phf_exact_match_arms)*
-            };
-            if let ::core::option::Option::Some(value) = PHF.get(s).cloned() {
+            if let ::core::option::Option::Some(value) = {
+                use #strum_module_path::_private_phf_reexport_for_macro_if_phf_feature as phf;
+                static PHF: phf::Map<&'static str, #name> = phf::phf_map! {
+                    #(#phf_exact_match_arms)*
+                };
+                PHF.get(s).cloned()
+            } {
                 return ::core::result::Result::Ok(value);
             }
         }
